@@ -9,10 +9,10 @@ CONSTANTS
   MaxUniform = 1
   Periods = {100}
   Statuses = {}
-  MaxOps = 6
+  MaxOps = 3
   MaxFaults = 0
   MaxData = 2
-  MaxLate = 1
+  MaxLate = 0
   TocAlts <- TocLonger
   IdMod = 255
   Bugs = {"reset_when_accepted"}
